@@ -175,6 +175,11 @@ func planC16(c *Ctx, run int64) *Plan {
 		for _, s := range def.Stamps {
 			mk(Op{K: "stamp", S: s, S2: "value-of-" + s})
 		}
+		if len(def.Stamps) > 0 && Chance(r, 0.5) {
+			// what a really stamped document looks like: further stamps besides the required one
+			mk(Op{K: "stamp", S: "sim-prv-a", S2: "s1"})
+			mk(Op{K: "stamp", S: "sim-prv-b", S2: "s2"})
+		}
 	}
 	if Chance(r, 0.2) {
 		// a source produced elsewhere: valid, digest matching, but not in this library's normal form
@@ -858,6 +863,23 @@ func c16checkCorrection(x *X, d *Doc, srcTree *JV, src, res *gobl.Envelope, o *c
 			bad("preceding-stamp", "preceding[0] lacks the required stamp %q with the source's/option's value (found %q)", s, found)
 		}
 	}
+	// ... and only those: other stamps of the source's header (or of the options) are the
+	// source's own material, not what the regime requires a correction to carry
+	if st := p0.Get("stamps"); st != nil && st.K == 'a' {
+		for _, e := range st.A {
+			prv := e.Get("prv").Str()
+			req := false
+			for _, s := range def.Stamps {
+				if s == prv {
+					req = true
+				}
+			}
+			if !req {
+				bad("preceding-stamp-not-required", "preceding[0] carries the stamp %q, which the published correction definitions (%v) do not ask for", prv, def.Stamps)
+			}
+		}
+		x.Probe("preceding-stamps-only-required")
+	}
 	if o.copyTax {
 		// the source's tax summary is carried along: the same categories, each retained or not as
 		// in the source, with the same rate rows (amounts are recalculated and not compared)
@@ -977,6 +999,14 @@ func c16checkReplica(x *X, d *Doc, srcTree *JV, src, res *gobl.Envelope, now tim
 	}
 	if a, b := refs(sd), refs(rd); a != b {
 		bad("content-preceding", "the replica does not refer to the documents the source refers to: source %q, replica %q", a, b)
+	}
+	// everything else a document says that is neither an identifier, a date of the
+	// document itself, nor computed: the same members with the same values
+	if a, b := replicaSkeleton(sd), replicaSkeleton(rd); !a.Equal(b) {
+		ab, bb := a.Encode(nil), b.Encode(nil)
+		bad("content:"+GDiff(ab, bb), "the replica does not keep the source's content; %s", DiffDetail(ab, bb))
+	} else {
+		x.Probe("replica-keeps-content")
 	}
 	sl, rl := sd.Get("lines"), rd.Get("lines")
 	if (sl == nil) != (rl == nil) || (sl != nil && len(sl.A) != len(rl.A)) {
@@ -1285,3 +1315,39 @@ func normaliseDoc(b []byte) string {
 }
 
 var _ = sort.Strings
+
+
+// replicaSkeleton: a document without what a replica renews (identifier, code,
+// its own dates) and without what a calculation at another date may compute
+// differently (totals and every amount, percentage and base).
+func replicaSkeleton(doc *JV) *JV {
+	if doc == nil {
+		return &JV{K: 'z'}
+	}
+	c := doc.Clone()
+	for _, k := range []string{"uuid", "code", "issue_date", "value_date", "op_date", "totals"} {
+		c.Del(k)
+	}
+	computed := map[string]bool{"sum": true, "total": true, "amount": true, "percent": true, "surcharge": true, "base": true, "uuid": true}
+	var strip func(v *JV)
+	strip = func(v *JV) {
+		switch v.K {
+		case 'o':
+			var keep []JM
+			for _, m := range v.M {
+				if computed[m.Key] {
+					continue
+				}
+				strip(m.V)
+				keep = append(keep, m)
+			}
+			v.M = keep
+		case 'a':
+			for _, e := range v.A {
+				strip(e)
+			}
+		}
+	}
+	strip(c)
+	return c
+}
